@@ -190,6 +190,26 @@ def pin_enum_layouts(dst: Path):
     return done
 
 
+def instrument_atomics(dst: Path):
+    """In the scratch copy, under cfg(kani) only: `crate::loom::{AtomicU32, AtomicBool}` become the
+    instrumented wrappers of harness/mux/common.rs (a scheduling point before every atomic
+    operation, used by the C12 instances at atomic granularity).  If the re-export line is not
+    found the copy is left alone; the atomic-granularity instances then never pass a scheduling
+    point and end INCONCLUSIVE (their witness is required)."""
+    f = dst / "penguin-mux" / "src" / "loom.rs"
+    if not f.exists():
+        return False
+    txt = f.read_text()
+    pat = re.compile(r"#\[cfg\(not\(all\(loom, test\)\)\)\]\s*\npub use core::sync::atomic::\{AtomicBool, AtomicU32, Ordering\};")
+    if not pat.search(txt):
+        return False
+    txt = pat.sub("#[cfg(all(not(all(loom, test)), not(kani)))]\npub use core::sync::atomic::{AtomicBool, AtomicU32, Ordering};\n"
+                  "#[cfg(kani)]\npub use core::sync::atomic::Ordering;\n"
+                  "#[cfg(kani)]\npub use crate::verif_common::{VAtomicBool as AtomicBool, VAtomicU32 as AtomicU32};", txt, count=1)
+    f.write_text(txt)
+    return True
+
+
 def neutralise_unit_tests(repo_copy: Path):
     """Native replay runs through `cargo test`; the crate's own unit tests (and their
     dev-dependencies: hyper, tokio runtime, ...) are not wanted there and do not build against
@@ -226,6 +246,7 @@ def copy_repo(dst: Path, profile: str, shims: list[str], shim_dir: Path, mount: 
     (dst / "Cargo.toml").write_text(man)
     pin_enum_layouts(dst)
     if mount:
+        instrument_atomics(dst)
         for rel, mods in MOUNTS.items():
             f = dst / rel
             if not f.exists():
